@@ -4,11 +4,13 @@ import (
 	"fmt"
 	"sort"
 	"strings"
+	"sync"
 	"sync/atomic"
 	"unicode/utf8"
 
 	"github.com/istio-ecosystem/authservice/zzverif/ev"
 	"github.com/istio-ecosystem/authservice/zzverif/par"
+	"github.com/istio-ecosystem/authservice/zzverif/seqx"
 	"github.com/istio-ecosystem/authservice/zzverif/world"
 )
 
@@ -295,10 +297,80 @@ func c13Run(run *ev.Run) {
 	if int(evals) != len(cases) {
 		run.Cap(fmt.Sprintf("%d of %d cases", evals, len(cases)))
 	}
-	run.Evals, run.States, run.Transitions, run.Traces = evals, evals, evals*2, evals
+	// histories: sessions superseded by requests for other URLs (pending / stale / attacker-chosen cookies)
+	var hs seqx.Stats
+	for _, st := range stores {
+		spec := world.Spec{Store: st}
+		o := hOpts{Spec: spec, ExtraPaths: true, Attacker: true, MaxSessions: 4}
+		m := o.model(c13HistoryMonitor(run, spec))
+		m.MaxDepth = 5
+		x := seqx.Explore(run, m)
+		hs.States += x.States
+		hs.Transitions += x.Transitions
+		hs.Histories += x.Histories
+		if !x.Complete {
+			run.Cap("history part not completed")
+		}
+	}
+	run.Evals, run.States, run.Transitions, run.Traces = evals+hs.Transitions, evals+hs.States, evals*2+hs.Transitions, evals+hs.Histories
+}
+
+// c13HistoryMonitor: in histories where sessions are superseded (a pending or stale cookie presented on another URL),
+// the Location after a successful login must be the URL of the request that created THAT session.
+func c13HistoryMonitor(run *ev.Run, spec world.Spec) hMonitor {
+	created := map[*world.World]map[string]string{}
+	var mu sync.Mutex
+	return func(h *hSys, o *hObs, hist []seqx.Event) {
+		w := h.W
+		full := c01Replay{Spec: spec, History: append(append([]seqx.Event{}, hist...), o.Event)}
+		_ = created
+		_ = &mu
+		// which request created which session: recomputed from the spy log (SetAuthorizationState carries the URL the
+		// service stored; the reference is the URL of the request during which that id was issued)
+		if o.AuthzLoc != "" {
+			if ns := w.SessionFromSetCookie(o.Res); ns != "" {
+				want := "https://app.test" + o.Req.Path
+				if g := w.Store.Ghost[ns]; g != nil && g.State != nil && g.State.RequestedURL != want {
+					run.Violation("C13 stored-requested-url-is-not-this-sessions-first-request", fmt.Sprintf("session created by a request for %q stores %q as the URL to return to", want, g.State.RequestedURL), full)
+				}
+				if !hasNoCacheHeaders(o.Res) {
+					run.Violation("C13 redirect-without-no-cache where=login", fmt.Sprintf("headers %v", o.Res.Headers), full)
+				}
+			}
+			run.Class("history|login-redirect|" + o.Req.Path)
+			return
+		}
+		if strings.HasPrefix(o.Req.Path, "/callback") && world.IsRedirect(o.Res.HTTPStatus) && o.PreGhost != nil && o.PreGhost.State != nil && len(o.TokenReqs) > 0 {
+			run.Class("history|post-login-redirect")
+			if o.Res.Location != o.PreGhost.State.RequestedURL {
+				run.Violation("C13 post-login-location-differs", fmt.Sprintf("Location %q, stored requested URL %q", o.Res.Location, o.PreGhost.State.RequestedURL), full)
+			}
+		}
+	}
+}
+
+func hasNoCacheHeaders(r world.Result) bool {
+	cc, pr := false, false
+	for _, h := range r.Headers {
+		if strings.EqualFold(h[0], "cache-control") && strings.Contains(strings.ToLower(h[1]), "no-cache") {
+			cc = true
+		}
+		if strings.EqualFold(h[0], "pragma") && strings.Contains(strings.ToLower(h[1]), "no-cache") {
+			pr = true
+		}
+	}
+	return cc && pr
 }
 
 func c13ReplayFn(path string) int {
+	var hr c01Replay
+	if _, err := loadReplay(path, &hr); err == nil && len(hr.History) > 0 {
+		run := ev.NewRun("C13", "replay", "/nonexistent")
+		o := hOpts{Spec: hr.Spec, ExtraPaths: true, Attacker: true}
+		s := seqx.Replay(o.model(c13HistoryMonitor(run, hr.Spec)), hr.History)
+		s.Close()
+		return replayVerdict("C13", run.Violations() > 0, "")
+	}
 	var c c13Case
 	if _, err := loadReplay(path, &c); err != nil {
 		fmt.Println(err)
